@@ -102,7 +102,11 @@ class MultivariateNormal(TMultivariateNormal, Distribution):
 
         :param noise: The size of the constant diagonal.
         """
-        return self.__class__(self.mean, self.lazy_covariance_matrix.add_jitter(noise))
+        return self._new_like(self.mean, self.lazy_covariance_matrix.add_jitter(noise))
+
+    def _new_like(self, mean: Tensor, covariance_matrix: Union[Tensor, LinearOperator]) -> MultivariateNormal:
+        # A distribution of the same kind as self: sub-classes pass on their own construction options
+        return self.__class__(mean=mean, covariance_matrix=covariance_matrix)
 
     @property
     def base_sample_shape(self) -> torch.Size:
@@ -384,12 +388,12 @@ class MultivariateNormal(TMultivariateNormal, Distribution):
 
     def __add__(self, other: MultivariateNormal) -> MultivariateNormal:
         if isinstance(other, MultivariateNormal):
-            return self.__class__(
+            return self._new_like(
                 mean=self.mean + other.mean,
                 covariance_matrix=(self.lazy_covariance_matrix + other.lazy_covariance_matrix),
             )
         elif isinstance(other, int) or isinstance(other, float):
-            return self.__class__(self.mean + other, self.lazy_covariance_matrix)
+            return self._new_like(self.mean + other, self.lazy_covariance_matrix)
         else:
             raise RuntimeError("Unsupported type {} for addition w/ MultivariateNormal".format(type(other)))
 
@@ -439,7 +443,7 @@ class MultivariateNormal(TMultivariateNormal, Distribution):
             raise RuntimeError("Can only multiply by scalars")
         if other == 1:
             return self
-        return self.__class__(mean=self.mean * other, covariance_matrix=self.lazy_covariance_matrix * (other**2))
+        return self._new_like(mean=self.mean * other, covariance_matrix=self.lazy_covariance_matrix * (other**2))
 
     def __radd__(self, other: MultivariateNormal) -> MultivariateNormal:
         if other == 0:
